@@ -8,7 +8,7 @@ def sh(cmd, cwd=None, env=None):
     r = subprocess.run(cmd, shell=True, cwd=cwd, capture_output=True, text=True, env=env)
     return r.returncode, r.stdout + r.stderr
 def run_prop(prop, variants):
-    wt = "/tmp/seed/" + prop
+    wt = os.environ.get("SEED_WT_ROOT", "/tmp/seed") + "/" + prop
     out = []
     for v in variants:
         sid = prop + v
@@ -30,7 +30,7 @@ def run_prop(prop, variants):
         out.append(rec)
         print(json.dumps(rec)); sys.stdout.flush()
     return out
-ids = sys.argv[1:] or sorted(d for d in os.listdir(os.path.join(V, "seeded")) if re.match(r"C\d\d[ab]$", d))
+ids = sys.argv[1:] or sorted(d for d in os.listdir(os.path.join(V, "seeded")) if re.match(r"C\d\d[a-d]$", d))
 byprop = {}
 for i in ids:
     byprop.setdefault(i[:3], []).append(i[3])
